@@ -24,9 +24,9 @@ structure SimAll (n : Nat) : Prop where
   evalToIndex : ∀ β σ sc e e', Good β σ → RExpr e e' → Ev (evalToIndex n σ sc e) (fun m => evalToIndex m (wb β σ) sc e')
   interpolate : ∀ β σ sc s slots loc last acc, Good β σ →
     Ev (interpolate n σ sc s slots loc last acc) (fun m => interpolate m (wb β σ) sc s slots loc last acc)
-  evalBlock : ∀ β σ sc bs stmts stmts', Good β σ → RStmts stmts stmts' →
-    Ev (evalBlock n σ sc bs stmts) (fun m => evalBlock m (wb β σ) sc bs stmts')
-  declareAll : ∀ β σ sc bs, Good β σ → Ev (declareAll n σ sc bs) (fun m => declareAll m (wb β σ) sc bs)
+  evalBlock : ∀ β σ sc bs bs' stmts stmts', Good β σ → RBinds bs bs' → RStmts stmts stmts' →
+    Ev (evalBlock n σ sc bs stmts) (fun m => evalBlock m (wb β σ) sc bs' stmts')
+  declareAll : ∀ β σ sc bs bs', Good β σ → RBinds bs bs' → Ev (declareAll n σ sc bs) (fun m => declareAll m (wb β σ) sc bs')
   evalStmts : ∀ β σ sc stmts stmts', Good β σ → RStmts stmts stmts' →
     Ev (evalStmts n σ sc stmts) (fun m => evalStmts m (wb β σ) sc stmts')
   evalStmt : ∀ β σ sc st st', Good β σ → RStmt st st' → Ev (evalStmt n σ sc st) (fun m => evalStmt m (wb β σ) sc st')
@@ -34,22 +34,39 @@ structure SimAll (n : Nat) : Prop where
     Ev (evalIf n σ sc bs els) (fun m => evalIf m (wb β σ) sc bs' els')
   evalWhile : ∀ β σ sc c c' stmts stmts', Good β σ → RExpr c c' → RStmts stmts stmts' →
     Ev (evalWhile n σ sc c stmts) (fun m => evalWhile m (wb β σ) sc c' stmts')
-  evalFor : ∀ β σ sc lhs pairs stmts stmts', Good β σ → RStmts stmts stmts' →
-    Ev (evalFor n σ sc lhs pairs stmts) (fun m => evalFor m (wb β σ) sc lhs pairs stmts')
-  bindNext : ∀ β σ sc names lhs rhs op decl, Good β σ →
-    Ev (bindNext n σ sc names lhs rhs op decl) (fun m => bindNext m (wb β σ) sc names lhs rhs op decl)
+  evalFor : ∀ β σ sc lhs lhs' pairs stmts stmts', Good β σ → RExpr lhs lhs' → RStmts stmts stmts' →
+    Ev (evalFor n σ sc lhs pairs stmts) (fun m => evalFor m (wb β σ) sc lhs' pairs stmts')
+  bindNext : ∀ β σ sc names lhs lhs' rhs op decl, Good β σ → RExpr lhs lhs' →
+    Ev (bindNext n σ sc names lhs rhs op decl) (fun m => bindNext m (wb β σ) sc names lhs' rhs op decl)
   bindProp : ∀ β σ a name loc rhs op names vi, Good β σ →
     Ev (bindProp n σ a name loc rhs op names vi) (fun m => bindProp m (wb β σ) a name loc rhs op names vi)
-  bindRangeIndex : ∀ β σ sc a start stop loc rhsItems names, Good β σ →
-    Ev (bindRangeIndex n σ sc a start stop loc rhsItems names) (fun m => bindRangeIndex m (wb β σ) sc a start stop loc rhsItems names)
-  bindList : ∀ β σ sc names items collect lhsLoc b decl i lhsLen, Good β σ →
+  bindRangeIndex : ∀ β σ sc a start start' stop stop' loc rhsItems names, Good β σ → ROpt start start' → ROpt stop stop' →
+    Ev (bindRangeIndex n σ sc a start stop loc rhsItems names)
+      (fun m => bindRangeIndex m (wb β σ) sc a start' stop' loc rhsItems names)
+  bindList : ∀ β σ sc names items items' collect lhsLoc b decl i lhsLen, Good β σ → RItems items items' →
     Ev (bindList n σ sc names items collect lhsLoc b decl i lhsLen)
-      (fun m => bindList m (wb β σ) sc names items collect lhsLoc b decl i lhsLen)
-  bindObject : ∀ β σ sc names props b decl i total remaining, Good β σ →
+      (fun m => bindList m (wb β σ) sc names items' collect lhsLoc b decl i lhsLen)
+  bindObject : ∀ β σ sc names props props' b decl i total remaining, Good β σ → RProps props props' →
     Ev (bindObject n σ sc names props b decl i total remaining)
-      (fun m => bindObject m (wb β σ) sc names props b decl i total remaining)
-  bindObjectProp : ∀ β σ sc names lhs b pname ploc decl, Good β σ →
-    Ev (bindObjectProp n σ sc names lhs b pname ploc decl) (fun m => bindObjectProp m (wb β σ) sc names lhs b pname ploc decl)
+      (fun m => bindObject m (wb β σ) sc names props' b decl i total remaining)
+  bindObjectProp : ∀ β σ sc names lhs lhs' b pname ploc decl, Good β σ → RExpr lhs lhs' →
+    Ev (bindObjectProp n σ sc names lhs b pname ploc decl) (fun m => bindObjectProp m (wb β σ) sc names lhs' b pname ploc decl)
+
+theorem RItems.length_eq : ∀ {a a' : List ListItem}, RItems a a' → a'.length = a.length := by
+  intro a
+  induction a with
+  | nil => intro a' h; cases h; rfl
+  | cons e r ih => intro a' h; cases h with | cons s he hr => simp [ih hr]
+
+theorem RProps.length_eq : ∀ {a a' : List PropItem}, RProps a a' → a'.length = a.length := by
+  intro a
+  induction a with
+  | nil => intro a' h; cases h; rfl
+  | cons e r ih =>
+    intro a' h
+    cases h with
+    | pair hn hv hr => simp [ih hr]
+    | single s c he hr => simp [ih hr]
 
 theorem mk_push (σ : State) (c : Cell) : (⟨σ.heap.push c, σ.out⟩ : State) = allocS σ c := rfl
 
@@ -66,7 +83,13 @@ macro "ev_side" : tactic =>
     | exact ROpt.refl _
     | exact RItems.refl _
     | exact RProps.refl _
-    | exact RStmts.refl _)
+    | exact RStmts.refl _
+    | exact RExprs.refl _
+    | exact RBinds.nil
+    | exact RBinds.refl _
+    | (refine RBinds.cons _ ?_ RBinds.nil; assumption)
+    | (apply RBinds.zip; assumption)
+    | (refine RBinds.append (RBinds.zip ?_ _) (RBinds.refl _); assumption))
 
 macro "ev_leaf " ih:ident : tactic =>
   `(tactic| first
@@ -85,7 +108,6 @@ macro "ev_leaf " ih:ident : tactic =>
     | (apply SimAll.bindObjectProp $ih <;> ev_side)
     | (apply applyBinOp_ev; ev_side) | (apply callBuiltin_ev; ev_side)
     | (apply opAssignValue_ev; ev_side) | (apply bindNextName_ev; ev_side)
-    | (apply validateArgsRes_ev; ev_side)
     | (refine Ev.of_eq (fun _ => rfl) ?_; first | trivial | (show Good _ _; ev_side)))
 
 macro "ev_auto " ih:ident : tactic =>
@@ -126,7 +148,7 @@ theorem simAll_zero : SimAll 0 := by
   · unfold bindObject; exact Ev.timeout
   · unfold bindObjectProp; exact Ev.timeout
 
-theorem evalToStr_succ (n : Nat) (ih : SimAll n) (β : Addr → List Stmt) (σ : State) (sc : List Addr) (d : List Char) (e e' : Expr)
+theorem evalToStr_succ (n : Nat) (ih : SimAll n) (β : Repl) (σ : State) (sc : List Addr) (d : List Char) (e e' : Expr)
     (hg : Good β σ) (hr : RExpr e e') : Ev (evalToStr (n + 1) σ sc d e) (fun m => evalToStr m (wb β σ) sc d e') := by
   apply Ev.shift
   unfold evalToStr
@@ -134,7 +156,7 @@ theorem evalToStr_succ (n : Nat) (ih : SimAll n) (β : Addr → List Stmt) (σ :
   cases hr'
   ev_auto ih
 
-theorem evalToBool_succ (n : Nat) (ih : SimAll n) (β : Addr → List Stmt) (σ : State) (sc : List Addr) (d : List Char) (e e' : Expr)
+theorem evalToBool_succ (n : Nat) (ih : SimAll n) (β : Repl) (σ : State) (sc : List Addr) (d : List Char) (e e' : Expr)
     (hg : Good β σ) (hr : RExpr e e') : Ev (evalToBool (n + 1) σ sc d e) (fun m => evalToBool m (wb β σ) sc d e') := by
   apply Ev.shift
   unfold evalToBool
@@ -142,7 +164,7 @@ theorem evalToBool_succ (n : Nat) (ih : SimAll n) (β : Addr → List Stmt) (σ 
   cases hr'
   ev_auto ih
 
-theorem evalToInt_succ (n : Nat) (ih : SimAll n) (β : Addr → List Stmt) (σ : State) (sc : List Addr) (d : List Char) (e e' : Expr)
+theorem evalToInt_succ (n : Nat) (ih : SimAll n) (β : Repl) (σ : State) (sc : List Addr) (d : List Char) (e e' : Expr)
     (hg : Good β σ) (hr : RExpr e e') : Ev (evalToInt (n + 1) σ sc d e) (fun m => evalToInt m (wb β σ) sc d e') := by
   apply Ev.shift
   unfold evalToInt
@@ -150,7 +172,7 @@ theorem evalToInt_succ (n : Nat) (ih : SimAll n) (β : Addr → List Stmt) (σ :
   cases hr'
   ev_auto ih
 
-theorem evalToIndex_succ (n : Nat) (ih : SimAll n) (β : Addr → List Stmt) (σ : State) (sc : List Addr) (e e' : Expr)
+theorem evalToIndex_succ (n : Nat) (ih : SimAll n) (β : Repl) (σ : State) (sc : List Addr) (e e' : Expr)
     (hg : Good β σ) (hr : RExpr e e') : Ev (evalToIndex (n + 1) σ sc e) (fun m => evalToIndex m (wb β σ) sc e') := by
   apply Ev.shift
   unfold evalToIndex
@@ -158,14 +180,14 @@ theorem evalToIndex_succ (n : Nat) (ih : SimAll n) (β : Addr → List Stmt) (σ
   cases hr'
   ev_auto ih
 
-theorem evalOptIndex_succ (n : Nat) (ih : SimAll n) (β : Addr → List Stmt) (σ : State) (sc : List Addr) (e e' : Option Expr)
+theorem evalOptIndex_succ (n : Nat) (ih : SimAll n) (β : Repl) (σ : State) (sc : List Addr) (e e' : Option Expr)
     (hg : Good β σ) (hr : ROpt e e') : Ev (evalOptIndex (n + 1) σ sc e) (fun m => evalOptIndex m (wb β σ) sc e') := by
   apply Ev.shift
   cases hr with
   | none => unfold evalOptIndex; exact Ev.ok hg
   | some he => unfold evalOptIndex; ev_auto ih
 
-theorem evalListItems_succ (n : Nat) (ih : SimAll n) (β : Addr → List Stmt) (σ : State) (sc : List Addr) (items items' : List ListItem)
+theorem evalListItems_succ (n : Nat) (ih : SimAll n) (β : Repl) (σ : State) (sc : List Addr) (items items' : List ListItem)
     (acc : List SVal) (hg : Good β σ) (hr : RItems items items') :
     Ev (evalListItems (n + 1) σ sc items acc) (fun m => evalListItems m (wb β σ) sc items' acc) := by
   apply Ev.shift
@@ -177,19 +199,20 @@ theorem evalListItems_succ (n : Nat) (ih : SimAll n) (β : Addr → List Stmt) (
     unfold evalListItems
     ev_auto ih
 
-theorem evalExpr_succ (n : Nat) (ih : SimAll n) (β : Addr → List Stmt) (σ : State) (sc : List Addr) (e e' : Expr)
+theorem evalExpr_succ (n : Nat) (ih : SimAll n) (β : Repl) (σ : State) (sc : List Addr) (e e' : Expr)
     (hg : Good β σ) (hr : RExpr e e') : Ev (evalExpr (n + 1) σ sc e) (fun m => evalExpr m (wb β σ) sc e') := by
   apply Ev.shift
   cases hr with
   | mk loc hraw =>
     cases hraw with
-    | func args c hss =>
+    | func c hargs hss =>
       unfold evalExpr
-      rename_i ss ss'
+      rename_i args args' ss ss'
       show Ev (Res.ok (SVal.plain (.func σ.heap.size)) (allocS σ (.func ⟨none, args, c, ss, sc⟩)))
-        (fun _ => Res.ok (SVal.plain (.func (wb β σ).heap.size)) (allocS (wb β σ) (.func (setBody ss' ⟨none, args, c, ss, sc⟩))))
+        (fun _ => Res.ok (SVal.plain (.func (wb β σ).heap.size))
+          (allocS (wb β σ) (.func (setCode (args', ss') ⟨none, args, c, ss, sc⟩))))
       simp only [allocS_wb_func, size_wb]
-      exact Ev.ok (good_allocS_func _ hg hss)
+      exact Ev.ok (good_allocS_func _ hg hargs hss)
     | str s sl =>
       cases sl with
       | none => unfold evalExpr; exact Ev.ok hg
@@ -198,7 +221,7 @@ theorem evalExpr_succ (n : Nat) (ih : SimAll n) (β : Addr → List Stmt) (σ : 
       unfold evalExpr
       ev_auto ih
 
-theorem evalProps_succ (n : Nat) (ih : SimAll n) (β : Addr → List Stmt) (σ : State) (sc : List Addr) (l : Loc)
+theorem evalProps_succ (n : Nat) (ih : SimAll n) (β : Repl) (σ : State) (sc : List Addr) (l : Loc)
     (props props' : List PropItem) (acc : ObjMap) (hg : Good β σ) (hr : RProps props props') :
     Ev (evalProps (n + 1) σ sc l props acc) (fun m => evalProps m (wb β σ) sc l props' acc) := by
   apply Ev.shift
@@ -211,7 +234,7 @@ theorem evalProps_succ (n : Nat) (ih : SimAll n) (β : Addr → List Stmt) (σ :
     | mk el hraw =>
       cases hraw <;> (unfold evalProps; simp only [Expr.raw, Expr.loc]; ev_auto ih)
 
-theorem interpolate_succ (n : Nat) (ih : SimAll n) (β : Addr → List Stmt) (σ : State) (sc : List Addr) (s : List Char)
+theorem interpolate_succ (n : Nat) (ih : SimAll n) (β : Repl) (σ : State) (sc : List Addr) (s : List Char)
     (slots : List (Nat × Nat)) (loc : Loc) (last : Nat) (acc : List Char) (hg : Good β σ) :
     Ev (interpolate (n + 1) σ sc s slots loc last acc) (fun m => interpolate m (wb β σ) sc s slots loc last acc) := by
   apply Ev.shift
@@ -222,24 +245,23 @@ theorem interpolate_succ (n : Nat) (ih : SimAll n) (β : Addr → List Stmt) (σ
     unfold interpolate
     ev_auto ih
 
-theorem evalBlock_succ (n : Nat) (ih : SimAll n) (β : Addr → List Stmt) (σ : State) (sc : List Addr) (bs : List (Expr × SVal))
-    (stmts stmts' : List Stmt) (hg : Good β σ) (hr : RStmts stmts stmts') :
-    Ev (evalBlock (n + 1) σ sc bs stmts) (fun m => evalBlock m (wb β σ) sc bs stmts') := by
+theorem evalBlock_succ (n : Nat) (ih : SimAll n) (β : Repl) (σ : State) (sc : List Addr) (bs bs' : List (Expr × SVal))
+    (stmts stmts' : List Stmt) (hg : Good β σ) (hb : RBinds bs bs') (hr : RStmts stmts stmts') :
+    Ev (evalBlock (n + 1) σ sc bs stmts) (fun m => evalBlock m (wb β σ) sc bs' stmts') := by
   apply Ev.shift
   unfold evalBlock
   ev_auto ih
 
-theorem declareAll_succ (n : Nat) (ih : SimAll n) (β : Addr → List Stmt) (σ : State) (sc : List Addr) (bs : List (Expr × SVal))
-    (hg : Good β σ) : Ev (declareAll (n + 1) σ sc bs) (fun m => declareAll m (wb β σ) sc bs) := by
+theorem declareAll_succ (n : Nat) (ih : SimAll n) (β : Repl) (σ : State) (sc : List Addr) (bs bs' : List (Expr × SVal))
+    (hg : Good β σ) (hb : RBinds bs bs') : Ev (declareAll (n + 1) σ sc bs) (fun m => declareAll m (wb β σ) sc bs') := by
   apply Ev.shift
-  cases bs with
+  cases hb with
   | nil => unfold declareAll; exact Ev.ok hg
-  | cons b r =>
-    obtain ⟨lhs, rhs⟩ := b
+  | cons v he hr =>
     unfold declareAll
     ev_auto ih
 
-theorem evalIf_succ (n : Nat) (ih : SimAll n) (β : Addr → List Stmt) (σ : State) (sc : List Addr) (bs bs' : List Branch)
+theorem evalIf_succ (n : Nat) (ih : SimAll n) (β : Repl) (σ : State) (sc : List Addr) (bs bs' : List Branch)
     (els els' : Option (List Stmt)) (hg : Good β σ) (hb : RBranches bs bs') (he : ROptStmts els els') :
     Ev (evalIf (n + 1) σ sc bs els) (fun m => evalIf m (wb β σ) sc bs' els') := by
   apply Ev.shift
@@ -250,16 +272,16 @@ theorem evalIf_succ (n : Nat) (ih : SimAll n) (β : Addr → List Stmt) (σ : St
     | some hss => unfold evalIf; ev_auto ih
   | cons hc hss hrest => unfold evalIf; ev_auto ih
 
-theorem evalWhile_succ (n : Nat) (ih : SimAll n) (β : Addr → List Stmt) (σ : State) (sc : List Addr) (c c' : Expr)
+theorem evalWhile_succ (n : Nat) (ih : SimAll n) (β : Repl) (σ : State) (sc : List Addr) (c c' : Expr)
     (stmts stmts' : List Stmt) (hg : Good β σ) (hc : RExpr c c') (hr : RStmts stmts stmts') :
     Ev (evalWhile (n + 1) σ sc c stmts) (fun m => evalWhile m (wb β σ) sc c' stmts') := by
   apply Ev.shift
   unfold evalWhile
   ev_auto ih
 
-theorem evalFor_succ (n : Nat) (ih : SimAll n) (β : Addr → List Stmt) (σ : State) (sc : List Addr) (lhs : Expr)
-    (pairs : List (SVal × SVal)) (stmts stmts' : List Stmt) (hg : Good β σ) (hr : RStmts stmts stmts') :
-    Ev (evalFor (n + 1) σ sc lhs pairs stmts) (fun m => evalFor m (wb β σ) sc lhs pairs stmts') := by
+theorem evalFor_succ (n : Nat) (ih : SimAll n) (β : Repl) (σ : State) (sc : List Addr) (lhs lhs' : Expr)
+    (pairs : List (SVal × SVal)) (stmts stmts' : List Stmt) (hg : Good β σ) (hl : RExpr lhs lhs') (hr : RStmts stmts stmts') :
+    Ev (evalFor (n + 1) σ sc lhs pairs stmts) (fun m => evalFor m (wb β σ) sc lhs' pairs stmts') := by
   apply Ev.shift
   cases pairs with
   | nil => unfold evalFor; exact Ev.ok hg
@@ -268,66 +290,85 @@ theorem evalFor_succ (n : Nat) (ih : SimAll n) (β : Addr → List Stmt) (σ : S
     unfold evalFor
     ev_auto ih
 
-theorem bindProp_succ (n : Nat) (_ih : SimAll n) (β : Addr → List Stmt) (σ : State) (a : Addr) (name : List Char) (loc : Loc)
+theorem bindProp_succ (n : Nat) (_ih : SimAll n) (β : Repl) (σ : State) (a : Addr) (name : List Char) (loc : Loc)
     (rhs : SVal) (op : Option (BinaryOp × Loc)) (names : List (List Char)) (vi : Bool) (hg : Good β σ) :
     Ev (bindProp (n + 1) σ a name loc rhs op names vi) (fun m => bindProp m (wb β σ) a name loc rhs op names vi) := by
   apply Ev.shift
   unfold bindProp
   ev_auto _ih
 
-theorem bindRangeIndex_succ (n : Nat) (ih : SimAll n) (β : Addr → List Stmt) (σ : State) (sc : List Addr) (a : Addr)
-    (start stop : Option Expr) (loc : Loc) (rhsItems : List SVal) (names : List (List Char)) (hg : Good β σ) :
+theorem bindRangeIndex_succ (n : Nat) (ih : SimAll n) (β : Repl) (σ : State) (sc : List Addr) (a : Addr)
+    (start start' stop stop' : Option Expr) (loc : Loc) (rhsItems : List SVal) (names : List (List Char)) (hg : Good β σ)
+    (h1 : ROpt start start') (h2 : ROpt stop stop') :
     Ev (bindRangeIndex (n + 1) σ sc a start stop loc rhsItems names)
-      (fun m => bindRangeIndex m (wb β σ) sc a start stop loc rhsItems names) := by
+      (fun m => bindRangeIndex m (wb β σ) sc a start' stop' loc rhsItems names) := by
   apply Ev.shift
   unfold bindRangeIndex
   ev_auto ih
 
-theorem bindObjectProp_succ (n : Nat) (ih : SimAll n) (β : Addr → List Stmt) (σ : State) (sc : List Addr)
-    (names : List (List Char)) (lhs : Expr) (b : Addr) (pname : List Char) (ploc : Loc) (decl : Bool) (hg : Good β σ) :
+theorem bindObjectProp_succ (n : Nat) (ih : SimAll n) (β : Repl) (σ : State) (sc : List Addr)
+    (names : List (List Char)) (lhs lhs' : Expr) (b : Addr) (pname : List Char) (ploc : Loc) (decl : Bool) (hg : Good β σ)
+    (hl : RExpr lhs lhs') :
     Ev (bindObjectProp (n + 1) σ sc names lhs b pname ploc decl)
-      (fun m => bindObjectProp m (wb β σ) sc names lhs b pname ploc decl) := by
+      (fun m => bindObjectProp m (wb β σ) sc names lhs' b pname ploc decl) := by
   apply Ev.shift
   unfold bindObjectProp
   ev_auto ih
 
-theorem bindList_succ (n : Nat) (ih : SimAll n) (β : Addr → List Stmt) (σ : State) (sc : List Addr) (names : List (List Char))
-    (items : List ListItem) (collect : Bool) (lhsLoc : Loc) (b : Addr) (decl : Bool) (i lhsLen : Nat) (hg : Good β σ) :
+theorem bindList_succ (n : Nat) (ih : SimAll n) (β : Repl) (σ : State) (sc : List Addr) (names : List (List Char))
+    (items items' : List ListItem) (collect : Bool) (lhsLoc : Loc) (b : Addr) (decl : Bool) (i lhsLen : Nat) (hg : Good β σ)
+    (hr : RItems items items') :
     Ev (bindList (n + 1) σ sc names items collect lhsLoc b decl i lhsLen)
-      (fun m => bindList m (wb β σ) sc names items collect lhsLoc b decl i lhsLen) := by
+      (fun m => bindList m (wb β σ) sc names items' collect lhsLoc b decl i lhsLen) := by
   apply Ev.shift
-  cases items with
+  cases hr with
   | nil => unfold bindList; exact Ev.ok hg
-  | cons it r =>
-    cases it with
-    | mk e spread =>
-      unfold bindList
-      ev_auto ih
+  | cons s he hrest =>
+    unfold bindList
+    ev_auto ih
 
-theorem bindObject_succ (n : Nat) (ih : SimAll n) (β : Addr → List Stmt) (σ : State) (sc : List Addr) (names : List (List Char))
-    (props : List PropItem) (b : Addr) (decl : Bool) (i total : Nat) (remaining : List (List Char)) (hg : Good β σ) :
+theorem bindObject_succ (n : Nat) (ih : SimAll n) (β : Repl) (σ : State) (sc : List Addr) (names : List (List Char))
+    (props props' : List PropItem) (b : Addr) (decl : Bool) (i total : Nat) (remaining : List (List Char)) (hg : Good β σ)
+    (hr : RProps props props') :
     Ev (bindObject (n + 1) σ sc names props b decl i total remaining)
-      (fun m => bindObject m (wb β σ) sc names props b decl i total remaining) := by
+      (fun m => bindObject m (wb β σ) sc names props' b decl i total remaining) := by
   apply Ev.shift
-  cases props with
+  cases hr with
   | nil => unfold bindObject; exact Ev.ok hg
-  | cons p r =>
-    cases p with
-    | Pair nameE newLhs => unfold bindObject; ev_auto ih
-    | Single e spread collect => unfold bindObject; ev_auto ih
+  | pair hn hv hrest =>
+    have hn' := hn
+    cases hn'
+    unfold bindObject
+    ev_auto ih
+  | single s c he hrest =>
+    have he' := he
+    cases he' with
+    | mk el hraw =>
+      cases hraw <;> (unfold bindObject; simp only [Expr.raw, Expr.loc]; ev_auto ih)
 
-theorem bindNext_succ (n : Nat) (ih : SimAll n) (β : Addr → List Stmt) (σ : State) (sc : List Addr) (names : List (List Char))
-    (lhs : Expr) (rhs : SVal) (op : Option (BinaryOp × Loc)) (decl : Bool) (hg : Good β σ) :
-    Ev (bindNext (n + 1) σ sc names lhs rhs op decl) (fun m => bindNext m (wb β σ) sc names lhs rhs op decl) := by
+theorem bindNext_succ (n : Nat) (ih : SimAll n) (β : Repl) (σ : State) (sc : List Addr) (names : List (List Char))
+    (lhs lhs' : Expr) (rhs : SVal) (op : Option (BinaryOp × Loc)) (decl : Bool) (hg : Good β σ) (hl : RExpr lhs lhs') :
+    Ev (bindNext (n + 1) σ sc names lhs rhs op decl) (fun m => bindNext m (wb β σ) sc names lhs' rhs op decl) := by
   apply Ev.shift
-  cases lhs with
-  | mk raw loc =>
-    cases raw <;> (unfold bindNext; try simp only [invalidBindDescr]) <;> ev_auto ih
+  cases hl with
+  | mk loc hraw =>
+    cases hraw with
+    | list c his =>
+      have hlen := his.length_eq
+      unfold bindNext
+      simp only [hlen]
+      ev_auto ih
+    | object hps =>
+      have hlen := hps.length_eq
+      unfold bindNext
+      simp only [hlen]
+      ev_auto ih
+    | _ => (unfold bindNext; try simp only [invalidBindDescr]) <;> ev_auto ih
 
-theorem wbRes_ne_timeout {α} (β : Addr → List Stmt) {r : Res α} (h : r ≠ .timeout) : wbRes β r ≠ .timeout := by
+theorem wbRes_ne_timeout {α} (β : Repl) {r : Res α} (h : r ≠ .timeout) : wbRes β r ≠ .timeout := by
   cases r <;> first | exact absurd rfl h | (intro h'; cases h')
 
-theorem evalStmts_cons_succ (n : Nat) (ih : SimAll n) (β : Addr → List Stmt) (σ : State) (sc : List Addr) (st st' : Stmt)
+theorem evalStmts_cons_succ (n : Nat) (ih : SimAll n) (β : Repl) (σ : State) (sc : List Addr) (st st' : Stmt)
     (r r' : List Stmt) (hg : Good β σ) (hs : RStmt st st') (hr : RStmts r r') :
     Ev (evalStmts (n + 1) σ sc (st :: r)) (fun m => evalStmts m (wb β σ) sc (st' :: r')) := by
   apply Ev.shift
@@ -335,7 +376,7 @@ theorem evalStmts_cons_succ (n : Nat) (ih : SimAll n) (β : Addr → List Stmt) 
   ev_auto ih
 
 /-- the same statement list on both sides -/
-theorem evalStmts_refl_succ (n : Nat) (ih : SimAll n) (β : Addr → List Stmt) (σ : State) (sc : List Addr) (ss : List Stmt)
+theorem evalStmts_refl_succ (n : Nat) (ih : SimAll n) (β : Repl) (σ : State) (sc : List Addr) (ss : List Stmt)
     (hg : Good β σ) : Ev (evalStmts (n + 1) σ sc ss) (fun m => evalStmts m (wb β σ) sc ss) := by
   cases ss with
   | nil => apply Ev.shift; unfold evalStmts; exact Ev.ok hg
@@ -343,7 +384,7 @@ theorem evalStmts_refl_succ (n : Nat) (ih : SimAll n) (β : Addr → List Stmt) 
 
 /-- the hole: the left run of `x` is matched by the right run of `x` (same code, states identical up to function
     bodies), which — in that one state — `y` refines -/
-theorem evalStmts_succ (n : Nat) (ih : SimAll n) (β : Addr → List Stmt) (σ : State) (sc : List Addr) (ss ss' : List Stmt)
+theorem evalStmts_succ (n : Nat) (ih : SimAll n) (β : Repl) (σ : State) (sc : List Addr) (ss ss' : List Stmt)
     (hg : Good β σ) (hr : RStmts ss ss') : Ev (evalStmts (n + 1) σ sc ss) (fun m => evalStmts m (wb β σ) sc ss') := by
   cases hr with
   | nil => apply Ev.shift; unfold evalStmts; exact Ev.ok hg
@@ -359,25 +400,25 @@ theorem evalStmts_succ (n : Nat) (ih : SimAll n) (β : Addr → List Stmt) (σ :
     rw [← h0, ← hm₁]
     exact fuel_stable (mono_stmts _ _ _) rfl (by rw [hm₁]; exact hne') hmm
 
-theorem evalStmt_succ (n : Nat) (ih : SimAll n) (β : Addr → List Stmt) (σ : State) (sc : List Addr) (st st' : Stmt)
+theorem evalStmt_succ (n : Nat) (ih : SimAll n) (β : Repl) (σ : State) (sc : List Addr) (st st' : Stmt)
     (hg : Good β σ) (hr : RStmt st st') : Ev (evalStmt (n + 1) σ sc st) (fun m => evalStmt m (wb β σ) sc st') := by
   apply Ev.shift
   cases hr with
-  | func name nl args c hss =>
-    rename_i ss ss'
+  | func name nl c hargs hss =>
+    rename_i args args' ss ss'
     unfold evalStmt
     dsimp only []
-    apply Ev.bind (validateArgsRes_ev n args hg)
+    apply Ev.bind (validateArgsRes_ev n hargs hg)
     intro β0 _ σ0 hg0
     show Ev ((bindNextName n (allocS σ0 (.func ⟨some name, args, c, ss, sc⟩)) sc [] name nl (SVal.plain (.func σ0.heap.size)) none
           true).bind fun _ σ2 => Res.ok Escape.none σ2)
-      (fun m => (bindNextName m (allocS (wb β0 σ0) (.func (setBody ss' ⟨some name, args, c, ss, sc⟩))) sc [] name nl
+      (fun m => (bindNextName m (allocS (wb β0 σ0) (.func (setCode (args', ss') ⟨some name, args, c, ss, sc⟩))) sc [] name nl
           (SVal.plain (.func (wb β0 σ0).heap.size)) none true).bind fun _ σ2 => Res.ok Escape.none σ2)
     simp only [allocS_wb_func, size_wb]
-    apply Ev.bind (bindNextName_ev n sc [] name nl _ none true (good_allocS_func _ hg0 hss))
+    apply Ev.bind (bindNextName_ev n sc [] name nl _ none true (good_allocS_func _ hg0 hargs hss))
     intro _ _ σ2 hg2
     exact Ev.ok hg2
-  | forS lhs hi hss =>
+  | forS hl hi hss =>
     have hi' := hi
     cases hi'
     unfold evalStmt
@@ -386,7 +427,7 @@ theorem evalStmt_succ (n : Nat) (ih : SimAll n) (β : Addr → List Stmt) (σ : 
     unfold evalStmt
     ev_auto ih
 
-theorem evalCall_succ (n : Nat) (ih : SimAll n) (β : Addr → List Stmt) (σ : State) (sc : List Addr) (f f' : Expr)
+theorem evalCall_succ (n : Nat) (ih : SimAll n) (β : Repl) (σ : State) (sc : List Addr) (f f' : Expr)
     (args args' : List ListItem) (loc : Loc) (hg : Good β σ) (hf : RExpr f f') (ha : RItems args args') :
     Ev (evalCall (n + 1) σ sc f args loc) (fun m => evalCall m (wb β σ) sc f' args' loc) := by
   apply Ev.shift
@@ -405,8 +446,9 @@ theorem evalCall_succ (n : Nat) (ih : SimAll n) (β : Addr → List Stmt) (σ : 
     cases hfr : σ2.getFunc a with
     | none => exact Ev.of_eq (fun _ => rfl) trivial
     | some fr =>
-      have hbody : RStmts fr.stmts (β2 a) := hg2 a fr hfr
-      simp only [Option.map, setBody]
+      obtain ⟨hargs, hbody⟩ := hg2 a fr hfr
+      have hlen : (β2 a).1.length = fr.args.length := hargs.length_eq
+      simp only [Option.map, setCode, hlen]
       split
       · exact Ev.of_eq (fun _ => rfl) trivial
       · split
